@@ -175,6 +175,22 @@ func TestVerifTrieMachine(t *testing.T) {
 		}
 		var prefix []json.RawMessage
 		var prevObs []vtmObs
+		var alphabet [][]byte
+		{
+			seen := map[string]bool{}
+			for _, raw := range b.Steps {
+				var s vtmStep
+				if json.Unmarshal(raw, &s) != nil {
+					continue
+				}
+				for _, x := range [][]byte{s.O.K.Bytes(), s.O.P.Bytes()} {
+					if len(x) > 0 && !seen[string(x)] {
+						seen[string(x)] = true
+						alphabet = append(alphabet, x)
+					}
+				}
+			}
+		}
 		for si, raw := range b.Steps {
 			var s vtmStep
 			if err := json.Unmarshal(raw, &s); err != nil {
@@ -357,6 +373,29 @@ func TestVerifTrieMachine(t *testing.T) {
 							owner = "C01"
 						}
 						fail(owner, "root", vHex(er), vHex(root), o.Op+"/"+where+"/root")
+						break
+					}
+				}
+			}
+			// the read side of the map after every step, not only where the behaviour reads: Get of every key and prefix the
+			// behaviour mentions anywhere (present, absent, a strict prefix of stored keys, an extension of one), on the
+			// operated handle (the empty key has its own recorded finding and is read by the behaviours themselves)
+			if !failed {
+				exp := vtmObsMap(s.Obs[h])
+				for _, pk := range alphabet {
+					var got []byte
+					pm := vTry(func() { got = tries[h].Get(pk) })
+					res.Cmp()
+					want, present := exp[string(pk)]
+					switch {
+					case pm != "":
+						fail("C02", "Get sweep", "no panic", pm, "Get/sweep/panic")
+					case present != (got != nil):
+						fail("C02", fmt.Sprintf("Get(%x) after the step", pk), fmt.Sprint(present), fmt.Sprintf("%v (%x)", got != nil, got), "Get/sweep/presence")
+					case present && !bytes.Equal(got, want):
+						fail("C02", fmt.Sprintf("Get(%x) after the step", pk), vHex(want), vHex(got), "Get/sweep/value")
+					}
+					if failed {
 						break
 					}
 				}
